@@ -7,10 +7,12 @@
   `i` is a `Diff.Slot`.  `Restores s` is the law `rplus (rplus y (ε e_j)) (−ε e_j) = y`; it holds over
   ℝ for every Lie-group argument with `exp(δ) ∘ exp(−δ) = 1` (`lie_argument_restores`).
   Partial (audited on every run, not proved): IEEE rounding of the difference quotients and of the
-  restore step; the second-order truncation bound is kept as a statement.
+  restore step.  The second-order truncation bound is proved (`second_difference_error`, in the
+  Fréchet form originally posed, and `second_difference_error_explicit` with separate constants).
 -/
 import SmoothProofs.C08Slots
 import SmoothProofs.C08Layout
+import SmoothProofs.C08SecondFD
 import Mathlib.Analysis.Calculus.ContDiff.Defs
 
 open Scalar Lin Diff Manif
@@ -235,11 +237,40 @@ theorem step_bound (base : ℝ) (s : Slot ℝ X) (x : X) (j : Nat) (hb : 0 < bas
       have := hc c hs
       nlinarith [abs_nonneg (c x j)]
 
-/-- the analogous statement for the second difference (K = 2), kept as a statement (NOT proved; the
-    audit measures it against closed forms): with `φ(s, t)` = a component of
-    `f(x ⊕ s e_k1 ⊕ t e_k0) ⊖ f(x ⊕ s e_k1)`, of class C³ with third derivative bounded by `L₃` on
-    `[0, ε₁] × [0, ε₀]`, the Hessian entry `(φ(ε₁, ε₀) − φ(0, ε₀))/ε₀/ε₁` is within
-    `L₃ (ε₀ + ε₁)/2` of `∂ₛ∂ₜ φ(0, 0)`. -/
+/-- **second_difference_error** (K = 2), explicit form with separate constants.  `φ(s, t)` stands
+    for a component of `f(x ⊕ s e_k1 ⊕ t e_k0) ⊖ f(x ⊕ s e_k1)` (so `φ(s, 0) = 0`).  With
+    `φt = ∂ₜφ`, `φtt = ∂ₜ∂ₜφ`, `φstt = ∂ₛ∂ₜ∂ₜφ` on `[0, ε₁] × [0, ε₀]`, `φst = ∂ₛ∂ₜφ(·, 0)`,
+    `φsst = ∂ₛ∂ₛ∂ₜφ(·, 0)` on the edge `t = 0`, `|∂ₛ∂ₜ∂ₜφ| ≤ A` on the rectangle and `|∂ₛ∂ₛ∂ₜφ| ≤ B`
+    on the edge: the Hessian entry `(φ(ε₁, ε₀) − φ(0, ε₀))/ε₀/ε₁` is within `A ε₀/2 + B ε₁/2` of
+    `∂ₛ∂ₜφ(0, 0)`.  (Two applications of `forward_quotient_bound`: in `t` to
+    `φ(ε₁, ·) − φ(0, ·)`, whose second derivative is `≤ A ε₁` by the mean value theorem, and in `s`
+    to `∂ₜφ(·, 0)`.)  The constants are sharp for `φ = s t²` resp. `φ = s² t`. -/
+theorem second_difference_error_explicit (φ φt φtt φstt : ℝ → ℝ → ℝ) (φst φsst : ℝ → ℝ)
+    (e0 e1 A B : ℝ) (h0 : 0 < e0) (h1 : 0 < e1)
+    (ht : ∀ s ∈ Set.Icc 0 e1, ∀ t ∈ Set.Icc 0 e0, HasDerivAt (fun t => φ s t) (φt s t) t)
+    (htt : ∀ s ∈ Set.Icc 0 e1, ∀ t ∈ Set.Icc 0 e0, HasDerivAt (fun t => φt s t) (φtt s t) t)
+    (hstt : ∀ s ∈ Set.Icc 0 e1, ∀ t ∈ Set.Icc 0 e0, HasDerivAt (fun s => φtt s t) (φstt s t) s)
+    (hA : ∀ s ∈ Set.Icc 0 e1, ∀ t ∈ Set.Icc 0 e0, |φstt s t| ≤ A)
+    (hst : ∀ s ∈ Set.Icc 0 e1, HasDerivAt (fun s => φt s 0) (φst s) s)
+    (hsst : ∀ s ∈ Set.Icc 0 e1, HasDerivAt φst (φsst s) s)
+    (hB : ∀ s ∈ Set.Icc 0 e1, |φsst s| ≤ B)
+    (hz : ∀ s, φ s 0 = 0) :
+    |(φ e1 e0 - φ 0 e0) / e0 / e1 - φst 0| ≤ A * e0 / 2 + B * e1 / 2 :=
+  second_quotient_bound φ φt φtt φstt φst φsst e0 e1 A B h0 h1 ht htt hstt hA hst hsst hB hz
+
+/-- **second_difference_error**, as originally posed: `φ` of class C³ with the (operator) norm of
+    the third Fréchet derivative bounded by `L₃` on `[0, ε₁] × [0, ε₀]` (sup norm on `ℝ × ℝ`, so the
+    mixed partials `∂ₛ∂ₜ∂ₜφ`, `∂ₛ∂ₛ∂ₜφ` are values of it on unit vectors): the Hessian entry
+    `(φ(ε₁, ε₀) − φ(0, ε₀))/ε₀/ε₁` is within `L₃ (ε₀ + ε₁)/2` of `∂ₛ∂ₜ φ(0, 0)`.
+    Bridge (SmoothProofs/C08SecondFD.lean): `D_a D_b D_c F p = iteratedFDeriv ℝ 3 F p ![a, b, c]`. -/
+theorem second_difference_error (φ : ℝ → ℝ → ℝ) (L3 e0 e1 : ℝ) (h0 : 0 < e0) (h1 : 0 < e1)
+    (hC : ContDiff ℝ 3 (Function.uncurry φ))
+    (hL : ∀ p ∈ Set.Icc (0 : ℝ) e1 ×ˢ Set.Icc (0 : ℝ) e0, ‖iteratedFDeriv ℝ 3 (Function.uncurry φ) p‖ ≤ L3)
+    (hz : ∀ s, φ s 0 = 0) :
+    |(φ e1 e0 - φ 0 e0) / e0 / e1 - deriv (fun s => deriv (fun t => φ s t) 0) 0| ≤ L3 * (e0 + e1) / 2 :=
+  second_difference_fd φ L3 e0 e1 h0 h1 hC hL hz
+
+/-- the statement kept under its historical name; now a theorem -/
 def second_difference_error_statement : Prop :=
   ∀ (φ : ℝ → ℝ → ℝ) (L3 e0 e1 : ℝ), 0 < e0 → 0 < e1 →
     ContDiff ℝ 3 (Function.uncurry φ) →
@@ -247,11 +278,92 @@ def second_difference_error_statement : Prop :=
     (∀ s, φ s 0 = 0) →
     |(φ e1 e0 - φ 0 e0) / e0 / e1 - deriv (fun s => deriv (fun t => φ s t) 0) 0| ≤ L3 * (e0 + e1) / 2
 
+theorem second_difference_error_statement_holds : second_difference_error_statement :=
+  fun φ L3 e0 e1 h0 h1 hC hL hz => second_difference_error φ L3 e0 e1 h0 h1 hC hL hz
+
+/-- **the Hessian entry of the model is that quotient**: component `j` of `d2Spec` (what
+    `hessian_layout` says is written at `H(I0 + k0, j·nx + I1 + k1)`) is
+    `(φ(ε₁, ε₀) − φ(0, ε₀))/ε₀/ε₁` for
+    `φ(s, t) = (f(x ⊕₁ s e_k1 ⊕₀ t e_k0) ⊖ f(x ⊕₁ s e_k1))_j`, provided `x ⊕₁ 0 = x`; hence
+    it is within `A ε₀/2 + B ε₁/2` of `∂ₛ∂ₜφ(0, 0)` under the hypotheses above. -/
+theorem hessian_entry_error (base : ℝ) (rm : Y → Y → List ℝ) (f : X → Y) (s0 s1 : Slot ℝ X) (x : X)
+    (n0 n1 k0 k1 j : Nat) (φt φtt φstt : ℝ → ℝ → ℝ) (φst φsst : ℝ → ℝ) (A B : ℝ)
+    (h0 : 0 < stepSize base s0 x k0) (h1 : 0 < stepSize base s1 x k1)
+    (hx0 : s1.rplus x (unitVec n1 k1 0) = x)
+    (hj1 : j < (rm (f (s0.rplus (s1.rplus x (unitVec n1 k1 (stepSize base s1 x k1)))
+        (unitVec n0 k0 (stepSize base s0 x k0))))
+        (f (s1.rplus x (unitVec n1 k1 (stepSize base s1 x k1))))).length)
+    (hj2 : j < (rm (f (s0.rplus x (unitVec n0 k0 (stepSize base s0 x k0)))) (f x)).length)
+    (ht : ∀ s ∈ Set.Icc 0 (stepSize base s1 x k1), ∀ t ∈ Set.Icc 0 (stepSize base s0 x k0),
+      HasDerivAt (fun t => (rm (f (s0.rplus (s1.rplus x (unitVec n1 k1 s)) (unitVec n0 k0 t)))
+        (f (s1.rplus x (unitVec n1 k1 s)))).getD j 0) (φt s t) t)
+    (htt : ∀ s ∈ Set.Icc 0 (stepSize base s1 x k1), ∀ t ∈ Set.Icc 0 (stepSize base s0 x k0),
+      HasDerivAt (fun t => φt s t) (φtt s t) t)
+    (hstt : ∀ s ∈ Set.Icc 0 (stepSize base s1 x k1), ∀ t ∈ Set.Icc 0 (stepSize base s0 x k0),
+      HasDerivAt (fun s => φtt s t) (φstt s t) s)
+    (hA : ∀ s ∈ Set.Icc 0 (stepSize base s1 x k1), ∀ t ∈ Set.Icc 0 (stepSize base s0 x k0), |φstt s t| ≤ A)
+    (hst : ∀ s ∈ Set.Icc 0 (stepSize base s1 x k1), HasDerivAt (fun s => φt s 0) (φst s) s)
+    (hsst : ∀ s ∈ Set.Icc 0 (stepSize base s1 x k1), HasDerivAt φst (φsst s) s)
+    (hB : ∀ s ∈ Set.Icc 0 (stepSize base s1 x k1), |φsst s| ≤ B)
+    (hz : ∀ s, (rm (f (s0.rplus (s1.rplus x (unitVec n1 k1 s)) (unitVec n0 k0 0)))
+        (f (s1.rplus x (unitVec n1 k1 s)))).getD j 0 = 0) :
+    |(d2Spec base rm f (f x) s0 s1 x n0 n1 k0 k1).getD j 0 - φst 0|
+      ≤ A * stepSize base s0 x k0 / 2 + B * stepSize base s1 x k1 / 2 := by
+  have key := second_quotient_bound
+    (fun s t => (rm (f (s0.rplus (s1.rplus x (unitVec n1 k1 s)) (unitVec n0 k0 t)))
+        (f (s1.rplus x (unitVec n1 k1 s)))).getD j 0)
+    φt φtt φstt φst φsst _ _ A B h0 h1 ht htt hstt hA hst hsst hB hz
+  have hent : (d2Spec base rm f (f x) s0 s1 x n0 n1 k0 k1).getD j 0 =
+      ((rm (f (s0.rplus (s1.rplus x (unitVec n1 k1 (stepSize base s1 x k1)))
+          (unitVec n0 k0 (stepSize base s0 x k0))))
+          (f (s1.rplus x (unitVec n1 k1 (stepSize base s1 x k1))))).getD j 0
+        - (rm (f (s0.rplus x (unitVec n0 k0 (stepSize base s0 x k0)))) (f x)).getD j 0)
+        / stepSize base s0 x k0 / stepSize base s1 x k1 := by
+    simp only [d2Spec, List.getD_eq_getElem?_getD, List.getElem?_map, List.getElem?_zipWith,
+      List.getElem?_eq_getElem hj1, List.getElem?_eq_getElem hj2]
+    simp
+  rw [hent]
+  simpa only [hx0] using key
+
 -- non-vacuity of the forward-difference hypotheses: g(t) = t², dg = 2t, d2g = 2, L = 2
 example : |(fun t : ℝ => t ^ 2) (1 / 4) / (1 / 4) - (fun t : ℝ => 2 * t) 0| ≤ 2 * (1 / 4) / 2 :=
   forward_quotient_bound (fun t => t ^ 2) (fun t => 2 * t) (fun _ => 2) (1 / 4) 2 (by norm_num)
     (fun t _ => by simpa using hasDerivAt_pow 2 t)
     (fun t _ => by simpa using (hasDerivAt_id' t).const_mul (2 : ℝ))
     (fun _ _ => by norm_num) (by norm_num)
+
+-- non-vacuity of the second-difference hypotheses (explicit form): φ = s t² + s² t,
+-- ∂ₛ∂ₜ∂ₜφ = ∂ₛ∂ₛ∂ₜφ = 2, ε₀ = 1/4, ε₁ = 1/8; the quotient is ε₀ + ε₁ = 3/8, the bound is 3/8
+example : |((fun s t : ℝ => s * t ^ 2 + s ^ 2 * t) (1 / 8) (1 / 4) - (fun s t : ℝ => s * t ^ 2 + s ^ 2 * t) 0 (1 / 4))
+      / (1 / 4) / (1 / 8) - (fun s : ℝ => 2 * s) 0| ≤ 2 * (1 / 4) / 2 + 2 * (1 / 8) / 2 :=
+  second_difference_error_explicit (fun s t => s * t ^ 2 + s ^ 2 * t) (fun s t => s * (2 * t) + s ^ 2)
+    (fun s _ => s * 2) (fun _ _ => 2) (fun s => 2 * s) (fun _ => 2) (1 / 4) (1 / 8) 2 2
+    (by norm_num) (by norm_num)
+    (fun s _ t _ =>
+      (((hasDerivAt_pow 2 t).const_mul s).add ((hasDerivAt_id' t).const_mul (s ^ 2))).congr_deriv
+        (by norm_num))
+    (fun s _ t _ =>
+      ((((hasDerivAt_id' t).const_mul (2 : ℝ)).const_mul s).add_const (s ^ 2)).congr_deriv (by ring))
+    (fun s _ t _ => ((hasDerivAt_id' s).mul_const (2 : ℝ)).congr_deriv (by ring))
+    (fun _ _ _ _ => by norm_num)
+    (fun s _ =>
+      (((hasDerivAt_id' s).mul_const ((2 : ℝ) * 0)).add (hasDerivAt_pow 2 s)).congr_deriv (by norm_num))
+    (fun s _ => by simpa using (hasDerivAt_id' s).const_mul (2 : ℝ))
+    (fun _ _ => by norm_num) (fun s => by simp)
+
+-- non-vacuity of the Fréchet form: for EVERY C³ function (here φ = s t² + s² t) a bound `L₃` on the
+-- rectangle exists (continuity of the third derivative on a compact set)
+example : ∃ L3, ContDiff ℝ 3 (Function.uncurry (fun s t : ℝ => s * t ^ 2 + s ^ 2 * t)) ∧
+    (∀ p ∈ Set.Icc (0 : ℝ) (1 / 8) ×ˢ Set.Icc (0 : ℝ) (1 / 4),
+      ‖iteratedFDeriv ℝ 3 (Function.uncurry (fun s t : ℝ => s * t ^ 2 + s ^ 2 * t)) p‖ ≤ L3) ∧
+    (∀ s : ℝ, (fun s t : ℝ => s * t ^ 2 + s ^ 2 * t) s 0 = 0) := by
+  have hC : ContDiff ℝ 3 (Function.uncurry (fun s t : ℝ => s * t ^ 2 + s ^ 2 * t)) := by
+    show ContDiff ℝ 3 (fun p : ℝ × ℝ => p.1 * p.2 ^ 2 + p.1 ^ 2 * p.2)
+    fun_prop
+  have hcont : Continuous (iteratedFDeriv ℝ 3 (Function.uncurry (fun s t : ℝ => s * t ^ 2 + s ^ 2 * t))) :=
+    hC.continuous_iteratedFDeriv (m := 3) le_rfl
+  obtain ⟨L3, hL3⟩ := (isCompact_Icc.prod isCompact_Icc).exists_bound_of_continuousOn
+    (s := Set.Icc (0 : ℝ) (1 / 8) ×ˢ Set.Icc (0 : ℝ) (1 / 4)) hcont.continuousOn
+  exact ⟨L3, hC, hL3, fun s => by simp⟩
 
 end C08
